@@ -272,3 +272,41 @@ def battery(quick=True):
     finally:
         shutil.rmtree(tmp, ignore_errors=True)
     return out
+
+
+def iter_pairs_exhaustive(max_n=5):
+    """PatchLinkage.iter_patch_id_pairs on every symmetric, reflexive link graph with up to max_n patches (both modes):
+    every (i, i) once, every linked pair once (auto: once as (min, max)), nothing else.  Returns (evaluated, failures)."""
+    import itertools
+    from collections import Counter
+    from yaw.correlation.measurements import PatchLinkage
+    fails, count = [], 0
+    for n in range(1, max_n + 1):
+        pairs = list(itertools.combinations(range(n), 2))
+        for mask in range(1 << len(pairs)):
+            links = {i: {i} for i in range(n)}
+            for k, (i, j) in enumerate(pairs):
+                if mask >> k & 1:
+                    links[i].add(j)
+                    links[j].add(i)
+            for auto in (False, True):
+                count += 1
+                pl = PatchLinkage.__new__(PatchLinkage)
+                pl.patch_links = {i: set(s) for i, s in links.items()}
+                try:
+                    got = Counter(pl.iter_patch_id_pairs(auto=auto))
+                except Exception as ex:  # noqa: BLE001
+                    fails.append(f"n={n} links={links} auto={auto}: raised {type(ex).__name__}: {ex}")
+                    continue
+                want = Counter((i, i) for i in range(n))
+                for i in range(n):
+                    for j in links[i]:
+                        if i != j and (not auto or i < j):
+                            want[(i, j)] += 1
+                if got != want:
+                    fails.append(f"n={n} links={links} auto={auto}: emitted {sorted(got.elements())} instead of {sorted(want.elements())}")
+                if pl.patch_links != links:
+                    fails.append(f"n={n} auto={auto}: the linkage itself was modified")
+                if len(fails) > 5:
+                    return count, fails
+    return count, fails
